@@ -523,6 +523,7 @@ func checkB5(c *Ctx, pr *prioRoles, strict bool) {
 		problems = append(problems, "the top-up is rejected already when actual == strategic: a priority sitting exactly on its share is sent down the base path, which can push another priority above its share")
 	}
 	// results
+	staleSum := false
 	for _, s := range p.resultSyms(fn, 0) {
 		if s.Op == "const" {
 			if s.Name == "true" {
@@ -561,6 +562,16 @@ func checkB5(c *Ctx, pr *prioRoles, strict bool) {
 					if !(isIdx(add, "tactic") || add.String() == val.String()) {
 						return false
 					}
+					// read back after it was written (picked += tactic[k] in front of the
+					// assignment sums the emptied map: the top-up is then never accepted and
+					// every round goes down the base path, which can lift a priority above its
+					// share); capacity does not depend on it
+					if strict && isIdx(add, "tactic") && add.String() != val.String() {
+						if lk, isIn := add.V.(ssa.Instruction); !isIn || !instrDominates(assign, lk) {
+							staleSum = true
+							return false
+						}
+					}
 				}
 				return true
 			}
@@ -572,6 +583,9 @@ func checkB5(c *Ctx, pr *prioRoles, strict bool) {
 				// written total <= vacants is enough for the bound
 				okRes = !strict && sumSide(cm.L) && isVac(cm.R) && cm.RC-cm.LC <= 0
 			}
+		}
+		if staleSum {
+			problems = append(problems, "the total compared with vacants reads tactic[k] back before the top-up wrote it (it sums the emptied map): the top-up is never accepted")
 		}
 		if !okRes {
 			want := "the written total == vacants"
